@@ -237,19 +237,22 @@ theorem key_unique_of_vals_nodup {d : Dict} {k k' : Key} {v : Obj}
 
 /-! ### `_named_objs` -/
 
-theorem nameOf_nil (o : Obj) : nameOf [] o = Int.repr o := by simp [nameOf]
+section
+variable (str : Obj → Key) (hstr : ∀ a b, str a = str b → a = b)
+
+theorem nameOf_nil (o : Obj) : nameOf str [] o = str o := by simp [nameOf]
 
 theorem namedObjs_nil_unfold (objs : List Obj) :
-    namedObjs objs [] = objs.foldl (fun d o => Dict.set d (Int.repr o) o) [] := by
+    namedObjs str objs [] = objs.foldl (fun d o => Dict.set d (str o) o) [] := by
   unfold namedObjs
   congr 1
 
-/-- Without a names dictionary `_named_objs` lists distinct integers under
-their decimal representation, in order. -/
+include hstr in
+/-- Without a names dictionary `_named_objs` lists distinct objects under their `str`, in order. -/
 theorem namedObjs_nil_aux (acc : Dict) (objs : List Obj)
-    (hacc : ∀ o ∈ objs, Int.repr o ∉ acc.map (·.1)) (h : objs.Nodup) :
-    objs.foldl (fun d o => Dict.set d (Int.repr o) o) acc
-      = acc ++ objs.map (fun o => (Int.repr o, o)) := by
+    (hacc : ∀ o ∈ objs, str o ∉ acc.map (·.1)) (h : objs.Nodup) :
+    objs.foldl (fun d o => Dict.set d (str o) o) acc
+      = acc ++ objs.map (fun o => (str o, o)) := by
   induction objs generalizing acc with
   | nil => simp
   | cons x l ih =>
@@ -263,37 +266,44 @@ theorem namedObjs_nil_aux (acc : Dict) (objs : List Obj)
         List.mem_cons, List.not_mem_nil, or_false, not_or]
       refine ⟨hacc o (by simp [ho]), ?_⟩
       intro e
-      have := Int.repr_injective e
+      have := hstr _ _ e
       subst this
       exact h.1 ho
 
+include hstr in
 theorem namedObjs_nil {objs : List Obj} (h : objs.Nodup) :
-    namedObjs objs [] = objs.map (fun o => (Int.repr o, o)) := by
-  rw [namedObjs_nil_unfold, namedObjs_nil_aux [] objs (by simp) h]; simp
+    namedObjs str objs [] = objs.map (fun o => (str o, o)) := by
+  rw [namedObjs_nil_unfold, namedObjs_nil_aux str hstr [] objs (by simp) h]; simp
 
+include hstr in
 theorem namedObjs_nil_vals {objs : List Obj} (h : objs.Nodup) :
-    (namedObjs objs []).map (·.2) = objs := by
-  rw [namedObjs_nil h]; simp [List.map_map, Function.comp_def]
+    (namedObjs str objs []).map (·.2) = objs := by
+  rw [namedObjs_nil str hstr h]; simp [List.map_map, Function.comp_def]
 
-theorem nodup_map_repr {objs : List Obj} (h : objs.Nodup) : (objs.map Int.repr).Nodup := by
+include hstr in
+theorem nodup_map_str {objs : List Obj} (h : objs.Nodup) : (objs.map str).Nodup := by
   induction objs with
   | nil => simp
   | cons x l ih =>
     simp only [List.nodup_cons, List.map_cons, List.mem_map, not_exists, not_and] at *
     refine ⟨?_, ih h.2⟩
     intro y hy e
-    have := Int.repr_injective e
+    have := hstr _ _ e
     subst this
     exact h.1 hy
 
+include hstr in
 theorem namedObjs_nil_keys_nodup {objs : List Obj} (h : objs.Nodup) :
-    ((namedObjs objs []).map (·.1)).Nodup := by
-  rw [namedObjs_nil h]
+    ((namedObjs str objs []).map (·.1)).Nodup := by
+  rw [namedObjs_nil str hstr h]
   simp only [List.map_map, Function.comp_def]
-  exact nodup_map_repr h
+  exact nodup_map_str str hstr h
 
+include hstr in
 theorem namedObjs_nil_ne_nil {objs : List Obj} (h : objs.Nodup) (hne : objs ≠ []) :
-    namedObjs objs [] ≠ [] := by
-  rw [namedObjs_nil h]; simpa using hne
+    namedObjs str objs [] ≠ [] := by
+  rw [namedObjs_nil str hstr h]; simpa using hne
+
+end
 
 end ParamVerif.Selector
